@@ -58,6 +58,38 @@ func runC11(c *Ctx, w *World, r *Report) {
 	r.Rule("R-CLAMP", "the bit count returned is 8*len(s)-frombit on the edge where it is <= tobit-frombit and tobit-frombit on the other edge (min), or 0")
 	r.Rule("R-SAMEARG", "PathOf calls FromStr32(s, frombit, frombit+height) and NewPath(bits = its 2nd result, length = its 1st result, height); PathsOf maps PathOf(keys[i], frombit, height) over every key and appends unless dedup is set and the path equals its predecessor (predecessor updated every iteration)")
 
+	// R-TOTAL: the property defines these functions for EVERY key and EVERY start bit (a start beyond the end gives
+	// the empty path): a contract or an explicit panic in them makes some input undefined, in the debug build at least
+	r.Rule("R-TOTAL", "FromStr32, PathOf and PathsOf are total (the property gives their value for every key and every start bit, beyond the end included): they contain no must.Be contract and no explicit panic, neither directly nor in a closure they create")
+	for _, tn := range []string{"bitmap.FromStr32", "bmtree.PathOf", "bmtree.PathsOf"} {
+		tf := fns[tn]
+		badT := ""
+		var scan func(f *ssa.Function, depth int)
+		scan = func(f *ssa.Function, depth int) {
+			if f == nil || f.Blocks == nil || depth > 3 {
+				return
+			}
+			eachInstr(f, func(ins ssa.Instruction) {
+				switch x := ins.(type) {
+				case *ssa.Call:
+					if name, ok := isMustCall(x); ok {
+						badT = fmt.Sprintf("contract must.Be.%s at %s: inputs it rejects are inputs the property defines", name, w.InstrPos(ins))
+					}
+					if b, ok := x.Common().Value.(*ssa.Builtin); ok && b.Name() == "panic" {
+						badT = fmt.Sprintf("explicit panic at %s", w.InstrPos(ins))
+					}
+				case *ssa.Panic:
+					badT = fmt.Sprintf("explicit panic at %s", w.InstrPos(ins))
+				case *ssa.MakeClosure:
+					if cf, ok := x.Fn.(*ssa.Function); ok {
+						scan(cf, depth+1)
+					}
+				}
+			})
+		}
+		scan(tf, 0)
+		r.Check(badT == "", "R-TOTAL", tn, w.Pos(tf.Pos()), badT, "no contract, no panic")
+	}
 	{ // R-GATHER
 		n := "bitmap.FromStr32"
 		fn := fns[n]
@@ -90,6 +122,39 @@ func runC11(c *Ctx, w *World, r *Report) {
 			js[j] = t.Shift
 			if t.Shift > top {
 				top = t.Shift
+			}
+		}
+		// guards: byte j is gathered whenever it exists: beyond what guards byte 0, only bounds on the byte index may guard it
+		{
+			var first *gatherTerm
+			for i := range terms {
+				if L := fa.Lin(terms[i].Idx); L.K == 0 {
+					first = &terms[i]
+				}
+			}
+			if first != nil {
+				base := map[*ssa.If]bool{}
+				for _, cd := range fa.Conds(first.Ins.Block()) {
+					base[cd.If] = true
+				}
+				for _, t := range terms {
+					for _, cd := range fa.Conds(t.Ins.Block()) {
+						if base[cd.If] {
+							continue
+						}
+						okCond := false
+						if D, _, ok := fa.CondRel(cd); ok {
+							for atom := range D.T {
+								if startByte(fa.AtomValue(atom)) {
+									okCond = true
+								}
+							}
+						}
+						if !okCond && bad == "" {
+							bad = fmt.Sprintf("the byte gathered at %s additionally depends on the branch at %s, which is not a bound on the byte index: a byte inside the window can be left out", w.InstrPos(t.Ins), w.InstrPos(cd.If))
+						}
+					}
+				}
 			}
 		}
 		var jl []int64
